@@ -540,6 +540,41 @@ def rule6(ctx, rep):
                     )
 
 
+def rule7(ctx, rep):
+    """find() is an exact lookup (added after seeded change C01-6: `jobid.startswith(j.tag)` made find(dep) return an
+    earlier-queued algorithm whose name is a prefix of the wanted ancestor; the release filter then read the wrong node's
+    todo / doing and released a target its real ancestor was still executing; Hand._res is routed by the same lookup)"""
+    prog = ctx.prog
+    f = prog.nfunc('dawgie.pl.schedule.find')
+    rep.analysed(f)
+    with rep.rule(
+        'R-C01-7',
+        'schedule.find selects the queued node by equality of its tag with the requested name (filter / comprehension / loop over the queue with `<node>.tag == <name>`, or a dictionary keyed by tag)',
+        floor=1,
+        breaks='the release filter consults another node than the queued ancestor it asked for (and a reply is applied to another job): upstream work is no longer seen',
+    ) as r:
+        r.instance()
+        over_que = any(isinstance(x, (ast.Name, ast.Attribute)) and prog.resolve_in(x, f) == wsa.QUE for x in f.own_nodes())
+        uses = []  # (node, ok)
+        for n in f.own_nodes():
+            if isinstance(n, ast.Compare) and any(isinstance(x, ast.Attribute) and x.attr == 'tag' for x in ast.walk(n)):
+                sides = [n.left] + list(n.comparators)
+                ok = len(n.ops) == 1 and isinstance(n.ops[0], ast.Eq) and any(isinstance(x, ast.Attribute) and x.attr == 'tag' for x in sides) and any(isinstance(x, ast.Name) for x in sides)
+                uses.append((n, ok))
+            elif isinstance(n, ast.Call) and isinstance(n.func, ast.Attribute) and n.func.attr in ('startswith', 'endswith', 'find', 'index', 'count', 'match', 'search') and any(isinstance(x, ast.Attribute) and x.attr == 'tag' for x in ast.walk(n)):
+                uses.append((n, False))
+            elif isinstance(n, ast.DictComp) and isinstance(n.key, ast.Attribute) and n.key.attr == 'tag':
+                uses.append((n, True))
+        bad = [n for n, ok in uses if not ok]
+        r.check(
+            over_que and bool(uses) and not bad,
+            f'{f.qname}:exact-tag',
+            where(f, bad[0] if bad else None),
+            'selection by `<node>.tag == <name>` over the queue',
+            f'{f.qname} does not select by equality of the tag: {norm(bad[0])[:80] if bad else "no comparison of a tag with the requested name over the queue found"}',
+        )
+
+
 def check(ctx):
     rep = Report(
         PID,
@@ -561,11 +596,14 @@ def check(ctx):
     shared.closure_rule(ctx, rep, 'R-C01-4')
     rule5(ctx, rep)
     rule6(ctx, rep)
+    rule7(ctx, rep)
     return rep
 
 
 _NJB = ('pl/schedule.py', 'next_job_batch')
 VARIANTS = [
+    V('find matches by prefix', 'B', 'pl/schedule.py', 'find', 'lambda j: j.tag == jobid', 'lambda j: jobid.startswith(j.tag)', 'R-C01-7'),
+    V('find as comprehension', 'N', 'pl/schedule.py', 'find', 'avail = list(filter(lambda j: j.tag == jobid, que))', 'avail = [j for j in que if jobid == j.tag]', None),
     V('defer fills todo without queueing', 'B', 'pl/schedule.py', 'defer', 'que.append(t)', 'pass', 'R-C01-6'),
     V('organize rebuild drops pending nodes', 'B', 'pl/schedule.py', 'organize', "lambda j: j.get('todo') or j.get('doing')", "lambda j: j.get('doing')", 'R-C01-6'),
     V('build fills todo without organize', 'B', 'pl/schedule.py', 'build', "organize(ans, event=f'New software changeset {rev}')", 'pass', 'R-C01-6'),
